@@ -19,12 +19,13 @@ From Cedar Require Import Lang.Value Lang.Expr Impl.Eval Impl.TypeCheck Lang.Typ
    the capabilities e establishes when true), or fails with one of the three allowed error kinds: never a type error, an unknown
    function / arity error, or a missing attribute or tag.
    schema_wf / tenv_wf: record types in the schema have distinct keys, the empty name is not an entity type.
-   agraph_wf: the action graph of the resolved schema lists declared actions only, and `Action` is not also an entity type name.
+   agraph_wf: the action graph of the resolved schema lists exactly the declared actions, and `Action` is not also an entity type name.
+   action_declared: the request environment's action is a declared action (Go enumerates the environments from the schema's actions).
    keys_small: attribute names shorter than 10^39 bytes (an artifact of the model's capability keys, see TypeSoundProofs.v).
    env_ok, actions_conform, store_types_known: the request and the store CONFORM to the schema, as Validator.Request / Validator.Entity
    decide it (entities of declared types: parents, attributes, tags; enumerated entities: bare; action entities: parents = the closure
    of their declared groups; no entity of an unknown type). *)
-Theorem C15_strict_sound : forall sch tv e, schema_wf sch -> tenv_wf sch tv -> agraph_wf sch -> keys_small e = true ->
+Theorem C15_strict_sound : forall sch tv e, schema_wf sch -> tenv_wf sch tv -> agraph_wf sch -> action_declared sch tv -> keys_small e = true ->
   forall caps t caps', typeof true sch tv e caps = TOk t caps' ->
   forall en, env_ok sch tv en -> actions_conform sch (e_store en) -> store_types_known sch (e_store en) -> caps_hold en caps ->
     match eval en e with
